@@ -5,7 +5,7 @@ use serde_json::{json, Value};
 use vcommon::evidence::Report;
 
 fn threads() -> usize {
-    std::thread::available_parallelism().map(|n| n.get()).unwrap_or(4)
+    std::env::var("VERIF_THREADS").ok().and_then(|s| s.parse().ok()).unwrap_or_else(|| std::thread::available_parallelism().map(|n| n.get()).unwrap_or(4))
 }
 
 pub fn run(pid: &'static str, thorough: bool) -> i32 {
@@ -15,19 +15,19 @@ pub fn run(pid: &'static str, thorough: bool) -> i32 {
     let mut transitions = 0u64;
     match pid {
         "C12" => {
-            let (bd, id) = if thorough { (8, 13) } else { (7, 11) };
+            let (bd, id) = if thorough { (9, 14) } else { (7, 12) };
             for (builder, depth) in [(true, bd), (false, id)] {
-                let st = tables::explore(builder, depth, threads());
-                // determinism of the exploration itself: single-threaded rerun must agree (thorough only for cost)
-                if !thorough || builder {
-                    let st1 = tables::explore(builder, depth.min(if builder { 5 } else { 7 }), 1);
-                    let stn = tables::explore(builder, depth.min(if builder { 5 } else { 7 }), threads());
-                    if st1.states != stn.states || st1.transitions != stn.transitions {
-                        eprintln!("stateright counts differ between 1 and N threads: {} vs {}", st1.states, stn.states);
-                        return 2;
-                    }
+                let st = tables::explore_layers(builder, depth);
+                // cross-check of the explorers at a smaller depth: stateright with 1 and N threads and the layered explorer agree
+                let small = if builder { 5 } else { 7 };
+                let st1 = tables::explore(builder, small, 1);
+                let stn = tables::explore(builder, small, threads());
+                let stl = tables::explore_layers(builder, small);
+                if st1.states != stn.states || st1.transitions != stn.transitions || st1.states != stl.states || st1.transitions != stl.transitions {
+                    eprintln!("explorers disagree: stateright 1 thread {}/{}, N threads {}/{}, layered {}/{}", st1.states, st1.transitions, stn.states, stn.transitions, stl.states, stl.transitions);
+                    return 2;
                 }
-                rep.set(if builder { "builder" } else { "interner" }, json!({"depth": depth, "states": st.states, "transitions": st.transitions, "max_depth": st.max_depth, "alphabet": if builder { tables::BUILDER_VALUES } else { tables::INTERNER_VALUES.len() }}));
+                rep.set(if builder { "builder" } else { "interner" }, json!({"depth": depth, "states": st.states, "transitions": st.transitions, "max_depth": st.max_depth, "alphabet": if builder { tables::BUILDER_VALUES } else { tables::INTERNER_VALUES.len() }, "cross_check_depth": small, "cross_check_states": st1.states}));
                 states += st.states;
                 transitions += st.transitions;
                 rep.extend(st.violations);
@@ -59,15 +59,22 @@ pub fn run(pid: &'static str, thorough: bool) -> i32 {
             let full = hist::env_full();
             let core = hist::env_core();
             let (dfull, dcore) = if thorough { (4, 7) } else { (3, 5) };
-            let a = hist::explore(full, pid, dfull, threads());
-            let b = hist::explore(core, pid, dcore, threads());
-            // run-twice sanity of the explorer: 1 thread vs N threads must agree on unique states
-            let c1 = hist::explore(core, pid, 2, 1);
-            let cn = hist::explore(core, pid, 2, threads());
-            if c1.states != cn.states || c1.transitions != cn.transitions {
-                eprintln!("stateright counts differ between 1 and N threads: {} vs {}", c1.states, cn.states);
+            let t0 = std::time::Instant::now();
+            let a = hist::explore_layers(full, pid, dfull);
+            eprintln!("[timing] U1 full alphabet depth {dfull}: {} states {} transitions in {:.1}s", a.states, a.transitions, t0.elapsed().as_secs_f64());
+            let t0 = std::time::Instant::now();
+            let b = hist::explore_layers(core, pid, dcore);
+            eprintln!("[timing] U1 core alphabet depth {dcore}: {} states {} transitions in {:.1}s", b.states, b.transitions, t0.elapsed().as_secs_f64());
+            // cross-check of the explorers: stateright (1 thread and N threads) and the layered explorer must agree
+            // on unique states and transitions at a smaller depth
+            let c1 = hist::explore(core, pid, 3, 1);
+            let cn = hist::explore(core, pid, 3, threads());
+            let cl = hist::explore_layers(core, pid, 3);
+            if c1.states != cn.states || c1.transitions != cn.transitions || c1.states != cl.states || c1.transitions != cl.transitions {
+                eprintln!("explorers disagree: stateright 1 thread {}/{}, N threads {}/{}, layered {}/{}", c1.states, c1.transitions, cn.states, cn.transitions, cl.states, cl.transitions);
                 return 2;
             }
+            rep.set("explorer_cross_check", json!({"depth": 3, "alphabet": "core", "stateright_states": c1.states, "stateright_transitions": c1.transitions, "layered_states": cl.states, "layered_transitions": cl.transitions}));
             rep.set("u1_full_alphabet", json!({"ops": full.alphabet.len(), "depth": dfull, "states": a.states, "transitions": a.transitions, "max_depth": a.max_depth, "distinct_registries": a.distinct_registries}));
             rep.set("u1_core_alphabet", json!({"ops": core.alphabet.len(), "depth": dcore, "states": b.states, "transitions": b.transitions, "max_depth": b.max_depth, "distinct_registries": b.distinct_registries}));
             states += a.states + b.states;
@@ -83,7 +90,9 @@ pub fn run(pid: &'static str, thorough: bool) -> i32 {
                 rep.extend(v);
             }
             // U2 graphs
+            let t0 = std::time::Instant::now();
             let g = graphs::explore(pid, thorough);
+            eprintln!("[timing] U2 graphs: {} graphs {} sequences in {:.1}s", g.graphs, g.histories, t0.elapsed().as_secs_f64());
             rep.set("u2_graphs", json!({"graphs": g.graphs, "graphs_with_edges": g.graphs_with_edges, "graphs_with_cycles": g.graphs_with_cycle, "root_sequences": g.histories, "registrations": g.registrations, "permutation_root_sets": g.perm_sets, "distinct_full_registries": g.distinct_registries.len(), "plans": g.per_plan}));
             states += g.histories;
             transitions += g.registrations;
@@ -93,7 +102,7 @@ pub fn run(pid: &'static str, thorough: bool) -> i32 {
             rep.extend(g.violations);
             if pid == "C01" {
                 // builder histories and retain results must be dense and closed as well
-                let t = tables::explore(true, if thorough { 7 } else { 5 }, threads());
+                let t = tables::explore_layers(true, if thorough { 7 } else { 6 });
                 // (eval_builder checks finish(): ids 0..len at their indices); closure of finish():
                 let mut closed_checked = 0u64;
                 let vals = tables::BUILDER_VALUES as u8;
